@@ -27,6 +27,7 @@ type Shared struct {
 	mutableGlobal map[*ssa.Global]bool
 	mapValsNonNil map[string]bool
 	pureFuncField map[string]bool
+	repoKeys      map[string]bool // heap keys read or written by repo code (syntactically)
 }
 
 type guardInfo struct {
@@ -40,7 +41,7 @@ type guardInfo struct {
 
 func newShared(ld *Loaded, cs *ContractSet) *Shared {
 	sh := &Shared{ld: ld, addrTaken: map[string]bool{}, fileOf: map[*token.File]*ast.File{}, importNames: map[string]map[string]*types.Package{},
-		mayLockMemo: map[*ssa.Function]bool{}, nonNilField: map[string]bool{}, elemsNonNil: map[string]bool{}, guards: map[string]*guardInfo{}, mapValsNonNil: map[string]bool{}, pureFuncField: map[string]bool{}}
+		mayLockMemo: map[*ssa.Function]bool{}, nonNilField: map[string]bool{}, elemsNonNil: map[string]bool{}, guards: map[string]*guardInfo{}, mapValsNonNil: map[string]bool{}, pureFuncField: map[string]bool{}, repoKeys: map[string]bool{}}
 	seenT := map[*types.Package]bool{}
 	packages.Visit(ld.Pkgs, nil, func(p *packages.Package) {
 		if p.Types != nil && !seenT[p.Types] {
@@ -71,6 +72,45 @@ func newShared(ld *Loaded, cs *ContractSet) *Shared {
 	}
 	// repo functions (members, methods, anonymous functions), excluding generated protobuf code
 	all := ssautil.AllFunctions(ld.Prog)
+	// AllFunctions is reachability-based: methods of types that are only converted to interfaces outside the loaded
+	// packages (e.g. *filestore) would be missed. Add every function and method of the in-scope packages explicitly.
+	var addFn func(f *ssa.Function)
+	addFn = func(f *ssa.Function) {
+		if f == nil || all[f] {
+			return
+		}
+		all[f] = true
+		for _, af := range f.AnonFuncs {
+			addFn(af)
+		}
+	}
+	for _, sp := range ld.SSA {
+		if sp == nil {
+			continue
+		}
+		for _, m := range sp.Members {
+			switch x := m.(type) {
+			case *ssa.Function:
+				addFn(x)
+			case *ssa.Type:
+				for _, t := range []types.Type{x.Type(), types.NewPointer(x.Type())} {
+					ms := ld.Prog.MethodSets.MethodSet(t)
+					for i := 0; i < ms.Len(); i++ {
+						if mf := ld.Prog.MethodValue(ms.At(i)); mf != nil && mf.Synthetic == "" {
+							addFn(mf)
+						}
+					}
+				}
+			}
+		}
+	}
+	for f := range all {
+		for _, af := range f.AnonFuncs {
+			if !all[af] {
+				all[af] = true
+			}
+		}
+	}
 	w := &World{}
 	tmp := newWorld(ld)
 	_ = w
@@ -79,6 +119,25 @@ func newShared(ld *Loaded, cs *ContractSet) *Shared {
 		if strings.HasPrefix(pp, "github.com/fullstorydev/emulators/") {
 			if fn.Synthetic == "" || strings.HasPrefix(fn.Synthetic, "") {
 				sh.repoFuncs = append(sh.repoFuncs, fn)
+			}
+			for _, b := range fn.Blocks {
+				for _, in := range b.Instrs {
+					switch x := in.(type) {
+					case *ssa.FieldAddr:
+						if st, ok := derefType(x.X.Type()).Underlying().(*types.Struct); ok && !isComposite(st.Field(x.Field).Type()) {
+							sh.repoKeys[tmp.fieldHeapKey(derefType(x.X.Type()), x.Field)] = true
+							sh.repoKeys[tmp.typeHeapKey(st.Field(x.Field).Type())] = true
+						}
+					case *ssa.UnOp:
+						if x.Op == token.MUL && !isComposite(x.Type()) {
+							sh.repoKeys[tmp.typeHeapKey(x.Type())] = true
+						}
+					case *ssa.Store:
+						if et := derefType(x.Addr.Type()); !isComposite(et) {
+							sh.repoKeys[tmp.typeHeapKey(et)] = true
+						}
+					}
+				}
 			}
 		}
 		// address-taken leaf fields (anywhere in the program: library code may take addresses too)
